@@ -66,6 +66,7 @@ def run_property(prop, seeds):
             print(n, verdict, obl[:1], "native-confirmed" if confirmed else "", flush=True)
     finally:
         sh("git -C /repo worktree remove --force %s" % wt)
+        sh("rm -rf /tmp/pyvc-out/%s" % wt.replace("/", "_"))
 
 
 by_prop = {}
